@@ -292,6 +292,8 @@ theorem Ens.l_lookupArr (n : Str) : Ens R Q (lookupArr n) := by unfold lookupArr
 macro_rules | `(tactic| ens_lib) => `(tactic| exact Ens.l_lookupArr _)
 theorem Ens.l_scopeAct : Ens R Q scopeAct := by unfold scopeAct; ens_auto
 macro_rules | `(tactic| ens_lib) => `(tactic| exact Ens.l_scopeAct)
+theorem Ens.l_typeScopeAct : Ens R Q typeScopeAct := by unfold typeScopeAct; ens_auto
+macro_rules | `(tactic| ens_lib) => `(tactic| exact Ens.l_typeScopeAct)
 theorem Ens.l_lookupList {β : Type} (sel : Act → List (Str × β)) (n : Str) (g : Bool) : Ens R Q (lookupList sel n g) := by
   unfold lookupList; ens_auto
 macro_rules | `(tactic| ens_lib) => `(tactic| exact Ens.l_lookupList _ _ _)
